@@ -19,7 +19,7 @@ def rate(m: int) -> float:
 
 
 def case_key(c: dict) -> str:
-    return "|".join(str(c[k]) for k in ("net", "kind", "m", "m2", "ystar", "dev", "c", "td", "rel", "user", "u"))
+    return "|".join(str(c[k]) for k in ("net", "kind", "m", "m2", "ystar", "dev", "c", "td", "rel", "user", "u", "prior"))
 
 
 def scale(c: dict) -> float:
@@ -168,9 +168,19 @@ def run_case(c: dict) -> dict:
         model = build(c)
         sim = Simulator(model)
     tol = 1.0 / c["td"]
+    obs: dict = {}
+    prior = c.get("prior", "none")
+    if prior != "none":
+        # the history of the case: an ordinary simulation over one loop step length succeeds first
+        sim.simulate(STEP, steps=4)
+        before = sim.get_result().value
+        if isinstance(before, Exception) or float(before.variables.index[-1]) != STEP:
+            return {"kind": "prior-failed", "detail": repr(before)[:200]}
+        obs["prior_rows"] = int(len(before.variables))
+        if prior == "simclear":
+            sim.clear_results()
     res = sim.simulate_to_steady_state(tolerance=tol, rel_norm=bool(c["rel"])).get_result()
     val = res.value
-    obs: dict = {}
     if isinstance(val, Exception):
         obs["kind"] = "error"
         obs["exc"] = type(val).__name__
@@ -203,6 +213,8 @@ def run_case(c: dict) -> dict:
 def judge(pred: dict, obs: dict) -> dict | None:
     """pred: {case, outcome in ok|fail, slo, shi}. None = conforms."""
     c = pred["case"]
+    if obs["kind"] == "prior-failed":
+        return {"what": "the ordinary simulation before the steady-state search failed", "observed": obs}
     if pred["outcome"] == "fail":
         if obs["kind"] != "error":
             return {"what": "a state is presented as steady for a network without steady state", "observed": obs}
@@ -211,8 +223,12 @@ def judge(pred: dict, obs: dict) -> dict | None:
         return None
     if obs["kind"] != "value":
         return {"what": "failure reported for a network with a stable steady state", "observed": obs}
-    if not obs["finite"] or obs["rows"] != 1:
-        return {"what": "steady-state result is not one finite state", "observed": obs}
+    want_rows = 1 + (obs.get("prior_rows", 0) if c.get("prior", "none") == "sim" else 0)
+    if not obs["finite"] or obs["rows"] != want_rows:
+        return {"what": "steady-state result is not the held rows plus one finite state", "expected_rows": want_rows,
+                "observed": obs}
+    if c.get("prior", "none") == "sim" and not obs["t"] > STEP:
+        return {"what": "the last row is not a point of the steady-state search", "observed": obs}
     tol = 1.0 / c["td"]
     k = max(1, 2 ** c["m"] - 1)
     allowed = []
@@ -255,6 +271,8 @@ def classify(pred: dict, detail: dict) -> str | None:
     if not isinstance(obs, dict) or obs.get("kind") != "value" or obs.get("t") != 2 * STEP:
         return None
     if pred["outcome"] == "ok" and pred["slo"] <= 2 <= pred["shi"]:
+        return None
+    if pred["case"].get("prior", "none") != "none":
         return None
     want = after_two_steps(pred["case"])
     if all(abs(a - b) <= 1e-4 * max(1.0, abs(b)) for a, b in zip(obs["state"], want)):
@@ -327,7 +345,8 @@ def random_case(rnd: random.Random) -> dict:
 
     def case(kind, m, m2, ystar, dev, c):
         return {"net": net, "kind": kind, "m": m, "m2": m2, "ystar": ystar, "dev": dev, "c": c, "td": td,
-                "rel": rel, "user": user, "u": rnd.choice([0, 0, 3, 6])}
+                "rel": rel, "user": user, "u": rnd.choice([0, 0, 3, 6]),
+                "prior": rnd.choice(["none", "none", "sim", "simclear"])}
 
     if net == "pool1":
         ys = rnd.randint(1, 31)
